@@ -19,7 +19,7 @@ type c05 struct{}
 func (c05) ID() string    { return "C05" }
 func (c05) Level() string { return "exploration" }
 func (c05) Rule() string {
-	return "target service decomposed into chains of 1..3 bases (4 thorough) x every assignment of link kinds {same file, other file same directory, other file in a sub-directory, other file in a sibling directory, back to the main file} x naming {distinct names, base named like the extending service where files differ} x file references {relative; all absolute} x own attributes of the most derived service {plain; tagged !override / !reset} x placement of each of 7 attributes (scalar, KEY=VALUE, plain sequence, wholesale command, build context, env_file, bind volume) on every non-empty subset of chain positions (one attribute varied at a time, and all together); every declaration-order permutation of same-file services and 8 uniform map-iteration rotations; sibling services sharing a base; all cyclic chains of length 1..4 over same/other file; missing base service and missing file. Oracle: flattening reference (most derived wins, keys merge, sequences append base-first, paths anchored on the directory of the file that wrote them), no extends left, errors for cycles/missing. distinct = distinct (chain shape, placement) pairs"
+	return "target service decomposed into chains of 1..3 bases (4 thorough) x every assignment of link kinds {same file, other file same directory, other file in a sub-directory, other file in a sibling directory, back to the main file} x naming {distinct names, base named like the extending service where files differ} x file references {relative; all absolute} x own attributes of the most derived service {plain; tagged !override / !reset} x placement of each of 7 attributes (scalar, KEY=VALUE, plain sequence, wholesale command, build context, env_file, bind volume) on every non-empty subset of chain positions (one attribute varied at a time, and all together); every declaration-order permutation of same-file services and 8 uniform map-iteration rotations; sibling services sharing a base; all cyclic chains of length 1..4 over same/other file, and those of length 1..3 with the file of every edge spelled in 6 ways (relative, bare, through another directory, absolute, absolute not canonical; uniform and mixed) and same-file edges naming their own file; missing base service and missing file. Oracle: flattening reference (most derived wins, keys merge, sequences append base-first, paths anchored on the directory of the file that wrote them), no extends left, errors for cycles/missing. distinct = distinct (chain shape, placement) pairs"
 }
 func (c05) Assumptions() []string {
 	return []string{"reference flattening in props/c05.go follows the override rules of the statement for the 7 attribute kinds used"}
@@ -586,6 +586,58 @@ func c05cycles(c *core.Ctx) {
 				}
 				return core.Outcome{Class: id, Sample: docs}
 			})
+		}
+	}
+	// the same cycles with the file of every edge spelled in other ways (bare, through another directory, absolute,
+	// absolute but not canonical; edge i uses spelling (k+i*mix) mod 6), and with same-file edges naming their own file
+	spell := []string{"./", "", "./d/../", "${ROOT}/", "${ROOT}/./", "${ROOT}/d/../"}
+	for n := 1; n <= 3; n++ {
+		for mask := 0; mask < 1<<n; mask++ {
+			for k := range spell {
+				for mix := 0; mix < 2; mix++ {
+					for explicit := 0; explicit < 2; explicit++ {
+						if k == 0 && mix == 0 && explicit == 0 {
+							continue // the plain enumeration above
+						}
+						if explicit == 0 && (mask == 0 || mask == 1<<n-1) && n > 0 && !(mask&1 != 0) {
+							continue // no cross-file edge at all: nothing is spelled
+						}
+						n, mask, k, mix, explicit := n, mask, k, mix, explicit
+						id := fmt.Sprintf("cycle-spelled/n%d/%b/s%d/m%d/x%d", n, mask, k, mix, explicit)
+						c.Do(id, func() core.Outcome {
+							fileOf := func(i int) string {
+								if mask&(1<<i) != 0 {
+									return "b.yaml"
+								}
+								return "compose.yaml"
+							}
+							docs := map[string]string{"compose.yaml": "services:\n  entry:\n    image: e\n", "b.yaml": "services:\n  other:\n    image: o\n", "d/.keep": ""}
+							for i := 0; i < n; i++ {
+								j := (i + 1) % n
+								sp := spell[(k+i*mix)%len(spell)]
+								ext := fmt.Sprintf("{service: c%d}", j)
+								if fileOf(i) != fileOf(j) || explicit == 1 {
+									ext = fmt.Sprintf("{file: \"%s%s\", service: c%d}", sp, fileOf(j), j)
+								}
+								docs[fileOf(i)] += fmt.Sprintf("  c%d:\n    image: i\n    extends: %s\n", i, ext)
+							}
+							if mask&1 != 0 {
+								docs["compose.yaml"] += "  start:\n    extends: {file: \"" + spell[k] + "b.yaml\", service: c0}\n"
+							}
+							s := &Scn{Files: docs, Main: []string{"compose.yaml"}, Env: map[string]string{"ROOT": RootToken}}
+							root := s.Materialise()
+							p, err := s.LoadAt(root)
+							if pe, ok := err.(*core.PanicError); ok {
+								return core.Outcome{Class: "panic", Sample: docs, Viol: &core.Violation{Key: "panic@" + pe.Site, Msg: id + ": " + pe.Error(), Detail: pe.Stack}}
+							}
+							if err == nil {
+								return core.Outcome{Class: "acc", Sample: docs, Viol: &core.Violation{Key: "extends-cycle-accepted:spelled", Msg: fmt.Sprintf("%s: a cyclic extends chain loads (%d services)", id, len(p.Services))}}
+							}
+							return core.Outcome{Class: id, Sample: docs}
+						})
+					}
+				}
+			}
 		}
 	}
 	for _, k := range []string{"missing-service-same-file", "missing-service-other-file", "missing-file"} {
